@@ -169,6 +169,14 @@ def single_assign_value(fn: ast.FunctionDef, name: str) -> Optional[ast.AST]:
             for t in n.targets:
                 if isinstance(t, ast.Name) and t.id == name:
                     vals.append(n.value)
+                elif isinstance(t, (ast.Tuple, ast.List)) and any(isinstance(m, ast.Name) and m.id == name for m in ast.walk(t)):
+                    vals.append(None)  # bound by unpacking: not a plain single assignment
+        elif isinstance(n, (ast.With, ast.AsyncWith)):
+            for item in n.items:
+                if item.optional_vars is not None and any(isinstance(m, ast.Name) and m.id == name for m in ast.walk(item.optional_vars)):
+                    vals.append(None)
+        elif isinstance(n, ast.ExceptHandler) and n.name == name:
+            vals.append(None)
         elif isinstance(n, (ast.AnnAssign, ast.AugAssign, ast.NamedExpr)):
             t = n.target
             if isinstance(t, ast.Name) and t.id == name:
@@ -198,6 +206,37 @@ def resolve_local(fn: ast.FunctionDef, expr: ast.AST, depth: int = 4) -> ast.AST
 
 def expr_text(fn: ast.FunctionDef, expr: ast.AST) -> str:
     return ast.unparse(resolve_local(fn, expr))
+
+
+def resolve_deep(fn: ast.FunctionDef, expr: ast.AST | str, depth: int = 6) -> ast.AST:
+    """Substitute every single-assignment local (at any nesting level) by its defining expression: the result does
+    not depend on which sub-expressions the author named.  Parameters, loop variables and multiply-assigned names stay."""
+    import copy
+    if isinstance(expr, str):
+        expr = ast.parse(expr, mode="eval").body
+    params = {a.arg for a in fn.args.posonlyargs + fn.args.args + fn.args.kwonlyargs}
+
+    class T(ast.NodeTransformer):
+        def __init__(self, left):
+            self.left = left
+
+        def visit_Name(self, n):
+            if isinstance(n.ctx, ast.Load) and n.id not in params and self.left > 0:
+                v = single_assign_value(fn, n.id)
+                if v is not None and not isinstance(v, (ast.List, ast.Dict, ast.Set)) or (v is not None and getattr(v, "elts", None)):
+                    return T(self.left - 1).visit(copy.deepcopy(v))
+            return n
+
+        def visit_Lambda(self, n):
+            return n
+
+    out = T(depth).visit(copy.deepcopy(expr))
+    ast.fix_missing_locations(out)
+    return out
+
+
+def deep_text(fn: ast.FunctionDef, expr: ast.AST | str) -> str:
+    return ast.unparse(resolve_deep(fn, expr))
 
 
 def squash(text: str) -> str:
